@@ -2,6 +2,7 @@ package c01
 
 import (
 	"fmt"
+	"strings"
 	"sync"
 	"time"
 
@@ -109,7 +110,29 @@ type Exec struct {
 	env *rt.Env
 	n   int
 	// measured totals
-	Points, Events, Forwarded, Tasks int
+	Points, Events, Forwarded, Tasks, NodeErrors int
+}
+
+// chunkErrs is what the task and its nodes reported through their diagnostics
+// while one chunk ran: a count and the first few distinct classes.
+type chunkErrs struct {
+	N       int
+	Classes []string
+}
+
+func (c *chunkErrs) add(class string) {
+	c.N++
+	if len(class) > 160 {
+		class = class[:160]
+	}
+	for _, k := range c.Classes {
+		if k == class {
+			return
+		}
+	}
+	if len(c.Classes) < 4 {
+		c.Classes = append(c.Classes, class)
+	}
 }
 
 func NewExec() (*Exec, error) {
@@ -149,7 +172,7 @@ func stepTimes(s Seq) (pts [][]int, tmax []int) {
 // Run executes seqs (one alert ID each, ids[i]) through ONE real task with
 // configuration cfg, the steps of all IDs interleaved round-robin, drains the
 // task and returns the observations per sequence and step.
-func (x *Exec) Run(cfg Cfg, seqs []Seq, ids []string) [][]stepObs {
+func (x *Exec) Run(cfg Cfg, seqs []Seq, ids []string) ([][]stepObs, chunkErrs) {
 	x.n++
 	x.Tasks++
 	topic := fmt.Sprintf("c01topic%d", x.n)
@@ -219,17 +242,27 @@ func (x *Exec) Run(cfg Cfg, seqs []Seq, ids []string) [][]stepObs {
 	} else if !x.env.Diag.WaitCount("in", written, 120*time.Second) {
 		rt.Fatalf("c01: task received %d of %d points within the deadline", x.env.Diag.Count("in"), written)
 	}
-	if err := x.env.TM.StopTask(taskID); err != nil {
-		rt.Fatalf("c01: stop task: %v", err)
-	}
+	// an error returned here is the task's own (a node failed); it is also reported
+	// through the diagnostics (StoppedTaskWithError) and recorded below
+	_ = x.env.TM.StopTask(taskID)
 	x.env.Alert.DeregisterAnonHandler(topic, col)
 	x.env.Alert.DeleteTopic(topic)
-	if errs := x.env.Diag.Errors(); len(errs) > 0 {
-		rt.Fatalf("c01: the task reported errors (first: %+v) for %v", errs[0], cfg)
+	// Errors reported by the task / its nodes are behaviour of the code under test:
+	// they are recorded with the traces of this chunk and TLC judges the outputs.
+	// Only what breaks the harness' own assumptions stays a harness failure: a
+	// dropped event (handler buffer full) or an error of the assembled services.
+	rep := chunkErrs{}
+	for _, e := range x.env.Diag.Errors() {
+		fromTask := strings.HasPrefix(e.Ctx, "task:") || strings.HasPrefix(e.Ctx, "node:")
+		if !fromTask || e.Msg == "encountered error collecting event" {
+			rt.Fatalf("c01: harness assumption broken (%+v) for %v", e, cfg)
+		}
+		rep.add(e.Msg + " | " + e.Err)
 	}
 	if msg, ok := x.env.Diag.StoppedWithError(taskID); ok && msg != "" {
-		rt.Fatalf("c01: task stopped with error %s", msg)
+		rep.add("task stopped with error | " + msg)
 	}
+	x.NodeErrors += rep.N
 
 	idx := make(map[string]int, len(ids))
 	out := make([][]stepObs, len(seqs))
@@ -274,7 +307,7 @@ func (x *Exec) Run(cfg Cfg, seqs []Seq, ids []string) [][]stepObs {
 		x.Forwarded++
 	}
 	x.env.Diag.Clear()
-	return out
+	return out, rep
 }
 
 func b2i(b bool) int {
@@ -303,8 +336,13 @@ func fwdOf(f models.Fields, tags models.Tags) fwdRec {
 }
 
 // emit writes one trace (Reset + one S line per step) for a sequence.
-func emit(t *rt.Trace, cfg Cfg, id string, s Seq, obs []stepObs) {
-	t.Reset(rt.M{"setup": cfg.JSON(), "id": id})
+// nerr / nerrc: errors the task reported while the chunk this ID belongs to ran.
+func emit(t *rt.Trace, cfg Cfg, id string, s Seq, obs []stepObs, rep chunkErrs) {
+	errc := make([]any, len(rep.Classes))
+	for i, c := range rep.Classes {
+		errc[i] = c
+	}
+	t.Reset(rt.M{"setup": cfg.JSON(), "id": id, "nerr": rep.N, "nerrc": errc})
 	times, tmaxs := stepTimes(s)
 	for b, st := range s {
 		pts := make([]any, len(st.Pts))
